@@ -196,6 +196,20 @@ class History:
         self.server.settings = {"harper-ls": base}
         opened = [k for k, d in self.docs.items() if d["open"]]
         before = {k: self.server.n_publishes(self.docs[k]["uri"]) for k in opened}
+        if opened and self.rng.random() < 0.5:
+            # the new settings reach the server first through a configuration pull (any didChange does
+            # that), the notification arrives afterwards
+            k0 = self.rng.choice(opened)
+            n0 = self.server.n_publishes(self.docs[k0]["uri"])
+            self.trace[-1]["pulled_first_by_a_change_of"] = k0
+            self.server.notify("textDocument/didChange", {"textDocument": {"uri": self.docs[k0]["uri"], "version": 4}, "contentChanges": [{"text": self.docs[k0]["client_text"]}]})
+            self.wait(lambda: self.server.n_publishes(self.docs[k0]["uri"]) > n0)
+            # that change re-parsed and re-linted k0 with the client's text under the new settings
+            d0 = self.docs[k0]
+            d0.update(srv_text=d0["client_text"], env=self.env_now(k0))
+            for fl in ("reorder", "disk-reread", "not-refreshed"):
+                d0["flags"].discard(fl)
+            before = {k: self.server.n_publishes(self.docs[k]["uri"]) for k in opened}
         self.server.notify("workspace/didChangeConfiguration", {"settings": self.server.settings})
         # a publish that never comes is not a harness failure: the stale diagnostics are judged below
         self.wait(lambda: all(self.server.n_publishes(self.docs[k]["uri"]) > before[k] for k in opened), quiet=0.3)
